@@ -215,10 +215,34 @@ def expected_map(p, E):
     raise optics.BrokenCorrespondence(f"no oracle for {cls}")
 
 
+def spec_params(spec, p):
+    """The reference map is computed from the values the element was CONSTRUCTED with (the spec), not from what the built object reports:
+    a constructor that stores another value than it was given (e.g. RBend deriving the exit pole-face angle from rbend_e1) must show up as
+    a deviation of the map.  Parameters the spec does not give keep the value read from the element (defaults)."""
+    kw, q = spec["kw"], dict(p)
+    if q.get("cls") in optics.IDENTITY_CLASSES:
+        return q
+    direct = {"length": "L", "k1": "k1", "angle": "angle", "tilt": "tilt", "k": "k", "gap": "gap", "fringe_integral": "fint", "dipole_e1": "e1",
+              "dipole_e2": "e2"}
+    for a, b in direct.items():
+        if a in kw and kw[a] is not None and b in q:
+            q[b] = float(kw[a])
+    if "misalignment" in kw and "mx" in q:
+        q["mx"], q["my"] = float(kw["misalignment"][0]), float(kw["misalignment"][1])
+    if spec["cls"] == "RBend":      # documented relation: pole-face rotation of a rectangular bend = rbend_e + angle / 2
+        for a, b in (("rbend_e1", "e1"), ("rbend_e2", "e2")):
+            if kw.get(a) is not None:
+                q[b] = float(kw[a]) + float(kw.get("angle", 0.0)) / 2
+    if "fint_exit" in q:
+        fx = kw.get("fringe_integral_exit")
+        q["fint_exit"] = float(fx) if fx is not None else q.get("fint", q["fint_exit"])
+    return q
+
+
 def oracle(spec, E):
     """list of (i, j, observed, expected, tol) where transfer_map deviates from the exact flow beyond 1e-9 relative"""
     e = realgen.build(spec)
-    p = optics.params(e)
+    p = spec_params(spec, optics.params(e))
     v = optics.observe(e, E)
     m = optics.model(e, E)
     x = expected_map(p, E)
